@@ -235,7 +235,9 @@ class C13(Scenario):
 
 def scenarios(tier, seed):
     scs = []
-    for s in ia_shapes():
+    # surrogate models: a derived quantity fed only by surrogate outputs (and parameters) is state-dependent, never a derived parameter
+    sur = [s_ for s_ in M.base_shapes() if s_["name"] in ("surrogate2", "surrogate_time", "surrogate_qss")]
+    for s in ia_shapes() + sur:
         for o in (M.all_orders(s) if tier != "quick" else [s, M.permuted(s, "derived", -1), M.permuted(s, "vars", -1), M.permuted(s, "params", -1)]):
             scs.append(C13(o))
     seen = set()
